@@ -93,7 +93,11 @@ RevisitProg(nm, how) ==
 DeepStarts == { [e |-> Idx(Dot(Idx(Dot(Id("r"), "M"), Str(<<"a">>)), "M"), Str(<<"b">>)), v |-> KEnd("r.M[a].M[b]")],
                 [e |-> Idx(Dot(Idx(Id("rs"), IntL(1)), "M"), Str(<<"b">>)), v |-> KRec("rs[1].M[b]")],
                 [e |-> Dot(Idx(Dot(Idx(Id("rm"), Str(<<"a">>)), "M"), Str(<<"a">>)), "M"), v |-> M([b |-> KEnd("rm[a].M[a].M[b]")])] }
+\* walks that start at the result of a TEMPLATE function (idf returns its argument: the leaves still spell the argument's paths)
+FnStarts == { [e |-> Call("idf", <<Id("k")>>), v |-> KRec("k")], [e |-> Call("idf", <<Idx(Id("rs"), IntL(1))>>), v |-> RRec("rs[1]")],
+              [e |-> Call("idf", <<Id("nil")>>), v |-> Nil] }
 Init == \/ \E x \in Roots : e = Id(x) /\ v = Data[x] /\ n = 0 /\ fam = "walk"
+        \/ \E d \in FnStarts : e = d.e /\ v = d.v /\ n = 0 /\ fam = "walk"
         \/ \E d \in DeepStarts : e = d.e /\ v = d.v /\ n = 0 /\ fam = "walk"
         \/ \E nm \in DOMAIN RevisitPaths, how \in {"loop", "assign"} : e = RevisitPaths[nm] /\ v = Failed /\ n = 0 /\ fam = nm \o ":" \o how
 
@@ -141,11 +145,13 @@ Spec == Init /\ [][Extend]_vars
 \* ---- the three uses of a path
 \* (letsel: the path without its last field selection is bound first, the selection applied to the bound name)
 Uses == {"emit", "let", "iter", "letsel"}
-Prog(u) == CASE u = "emit" -> <<Text(<<"[">>), Emit(e), Text(<<"]">>)>>
+IdF == Let("idf", FnLit(<<"x">>, <<Ret(Id("x"))>>))
+ProgU(u) == CASE u = "emit" -> <<Text(<<"[">>), Emit(e), Text(<<"]">>)>>
              [] u = "let"  -> <<Let("z", e), Text(<<"[">>), Emit(Id("z")), Text(<<"]">>)>>
              [] u = "letsel" -> IF e.t = "dot" THEN <<Let("z", e.l), Text(<<"[">>), Emit(Dot(Id("z"), e.n)), Text(<<"]">>)>>
                                 ELSE <<Text(<<"[">>), Emit(e), Text(<<"]">>)>>
              [] u = "iter" -> <<Text(<<"[">>), Emit(For("", "w", e, <<Text(<<"(">>), Emit(Id("w")), Text(<<")">>)>>)), Text(<<"]">>)>>
+Prog(u) == <<IdF>> \o ProgU(u)
 Res(u) == Run(Prog(u), WithHelpers(Data), EmptyScope, "")
 
 \* what C11 states: the value Go navigation yields, or an error / empty output when it cannot be completed
